@@ -16,7 +16,7 @@ import numpy as np
 
 from harness import tabutil as tu
 from harness import dmutil as du
-from harness.common import Driver, Result, err_class
+from harness.common import Driver, Result, err_class, impl_guard
 
 LEVEL = "proof"
 TRUSTED_BASE = [
@@ -49,7 +49,13 @@ class Script:
     def randint(self, *a, **k):
         return self.nxt()
 
-    def choice(self, a, p=None, **k):
+    def choice(self, a, *args, p=None, **k):
+        # numpy's signature is choice(a, size=None, replace=True, p=None): `p` may arrive positionally (4th) or not at all (uniform) —
+        # a refactored call must neither raise inside the script nor be reported as the backend raising
+        if p is None and len(args) >= 3:
+            p = args[2]
+        if p is None:
+            return self.nxt()
         p = np.asarray(p, dtype=float)
         if p[0] > 1 - 1e-9:
             return 0
@@ -63,16 +69,22 @@ def make_compilers():
     from graphiq.backends.stabilizer.compiler import StabilizerCompiler
 
     class RecMixin:
-        def compile_one_gate(self, state, op, n_quantum, q_index, classical_registers):
-            r = super().compile_one_gate(state, op, n_quantum, q_index, classical_registers)
-            self.last_record = np.array(classical_registers).copy()
-            self.trace.append((type(op).__name__, self.last_record.copy()))
+        # both overrides accept and forward whatever the caller passes (also used by C02 and C10): a signature-extending refactor of
+        # CompilerBase must neither raise inside the recorder nor be reported as the compiler raising.  The classical record is the
+        # argument named `classical_registers` (keyword, or the fifth positional one as compile() passes it today).
+        def compile_one_gate(self, *args, **kwargs):
+            r = super().compile_one_gate(*args, **kwargs)
+            op = kwargs.get("op", args[1] if len(args) > 1 else None)
+            cr = kwargs.get("classical_registers", args[4] if len(args) > 4 else None)
+            if cr is not None:
+                self.last_record = np.array(cr).copy()
+            self.trace.append((type(op).__name__, np.array(self.last_record).copy()))
             return r
 
-        def compile(self, circuit, initial_state=None):
+        def compile(self, circuit, *args, **kwargs):
             self.last_record = np.zeros(circuit.n_classical)
             self.trace = []
-            return super().compile(circuit, initial_state)
+            return super().compile(circuit, *args, **kwargs)
 
     class SC(RecMixin, StabilizerCompiler):
         pass
@@ -130,6 +142,11 @@ def build(desc, ne, np_, nc):
     return c
 
 
+class UnknownOp(Exception):
+    """sequence() handed out an operation of a class outside the token alphabet of the circuit model (the implementation left the modelled
+    domain: reported through impl_guard(also=(UnknownOp,)) as a correspondence break, not a harness crash)"""
+
+
 def tokens_of(circuit):
     """op tokens in the implementation's own sequence order"""
     import graphiq.circuit.ops as ops
@@ -153,7 +170,9 @@ def tokens_of(circuit):
             toks.append(f"MZ:{op.reg_type}{op.register}:c{op.c_register}")
             kinds.append(("MZ", (op.reg_type, op.register), op.c_register))
         else:
-            t = {"ClassicalCNOT": "CCX", "ClassicalCZ": "CCZ", "MeasurementCNOTandReset": "MCR"}[nm]
+            t = {"ClassicalCNOT": "CCX", "ClassicalCZ": "CCZ", "MeasurementCNOTandReset": "MCR"}.get(nm)
+            if t is None:
+                raise UnknownOp(f"operation class {nm} in sequence()")
             toks.append(f"{t}:{op.control_type}{op.control}:{op.target_type}{op.target}:c{op.c_register}")
             kinds.append((t, (op.control_type, op.control), (op.target_type, op.target), op.c_register))
     return toks, kinds
@@ -403,11 +422,14 @@ def one_case(ctx, res, drv, rng, SC, DC, ne, np_, nc, length, use_dm, init=False
                 continue
             data, rec, used = out[name]
             if n <= 6:
-                rho = tu.dense_rho(data) if name == "stab" else np.asarray(data)
+                # validity first: dense_rho of a non-binary / wrongly shaped tableau (or allclose on a matrix of another size) would raise in
+                # harness code and end the run as an infrastructure failure
                 if name == "stab" and not (tu.is_binary(data) and tu.is_valid(data)):
                     res.violation("compile:stab:invalid-tableau", "stabilizer backend returned an invalid tableau", input=inp)
-                elif not np.allclose(rho, rho_ref, atol=1e-8):
-                    res.violation(f"compile:{name}:wrong-state", f"{name} backend's state differs from textbook semantics of the circuit", input=inp)
+                else:
+                    rho = tu.dense_rho(data) if name == "stab" else np.asarray(data)
+                    if np.shape(rho) != np.shape(rho_ref) or not np.allclose(rho, rho_ref, atol=1e-8):
+                        res.violation(f"compile:{name}:wrong-state", f"{name} backend's state differs from textbook semantics of the circuit", input=inp)
                 if rec != rec_ref:
                     res.violation(f"compile:{name}:wrong-record", f"{name} backend's classical record {rec} differs from the outcomes {rec_ref}", input=inp)
         init_args = (" " + tu.tab_args(init_tab)) if init_tab is not None else ""
@@ -536,7 +558,11 @@ def run(ctx, budget=1.0):
     drv = Driver()
     rng = ctx.rng
     SC, DC = make_compilers()
-    primitives_check(res, rng)
+    # every case runs under common.impl_guard: building the circuit (CircuitDAG, add, the ops constructors), sequence(), replace_op / copy of
+    # the history cases and the generator of initial tableaux call graphiq outside the compile `try`; an exception there is the
+    # implementation failing on a valid input (reported, exit 1), it no longer leaves run() as a harness crash (exit 2)
+    with impl_guard(res, "dm-primitives"):
+        primitives_check(res, rng)
     n_small = int((260 if ctx.quick else 3000) * budget)
     for k in range(n_small):
         ne = rng.randrange(1, 4)
@@ -544,14 +570,17 @@ def run(ctx, budget=1.0):
         if ne + np_ > 6:
             np_ = 6 - ne
         nc = rng.randrange(0, 4)
-        one_case(ctx, res, drv, rng, SC, DC, ne, np_, nc, rng.randrange(0, 26 if ctx.quick else 60), True, init=(k % 7 == 3), history=(k % 5 == 1))
+        with impl_guard(res, "circuit", promise=True, input={"ne": ne, "np": np_, "nc": nc, "case": k}, also=(UnknownOp,)):
+            one_case(ctx, res, drv, rng, SC, DC, ne, np_, nc, rng.randrange(0, 26 if ctx.quick else 60), True, init=(k % 7 == 3), history=(k % 5 == 1))
     for k in range(int((25 if ctx.quick else 200) * budget)):
         ne = rng.randrange(2, 12)
         np_ = rng.randrange(3, 30)
-        one_case(ctx, res, drv, rng, SC, DC, ne, np_, rng.randrange(1, 5), rng.randrange(20, 80), False)
+        with impl_guard(res, "circuit", promise=True, input={"ne": ne, "np": np_, "case": f"large-{k}"}, also=(UnknownOp,)):
+            one_case(ctx, res, drv, rng, SC, DC, ne, np_, rng.randrange(1, 5), rng.randrange(20, 80), False)
     if not ctx.quick:
-        exhaustive_short(ctx, res, drv, SC, DC)
-        res.notes.append("exhaustive: all circuits of <= 2 ops (after a Bell-pair preamble) over one emitter, one photon, one classical register")
+        with impl_guard(res, "circuit:exhaustive", promise=True, also=(UnknownOp,)):
+            exhaustive_short(ctx, res, drv, SC, DC)
+            res.notes.append("exhaustive: all circuits of <= 2 ops (after a Bell-pair preamble) over one emitter, one photon, one classical register")
     res.extra["driver_lines"] = drv.n_lines
     drv.close()
     return res
